@@ -135,6 +135,11 @@ def main():
                     print(r.stderr[-2000:])
             entry["killed_by"] = killed_by
             entry["status"] = "killed" if killed_by else "SURVIVED"
+            if not killed_by and any(entry[p]["exit"] not in (0, 1)
+                                     for p in props):
+                # the check itself failed (exit 2): neither a detection nor
+                # a clean run
+                entry["status"] = "HARNESS-ERROR"
             if not killed_by:
                 rc = 1
             print("%-60s %s %s" % (key, entry["status"],
